@@ -71,11 +71,11 @@ def run_check(pid):
 
 def main():
     only = sys.argv[1:]
-    patches = sorted(glob.glob('/tmp/C??_m?.patch')) + sorted(glob.glob('/tmp/R??_n?.patch')) + sorted(glob.glob('/tmp/S??_n?.patch'))
+    patches = sorted(glob.glob('/tmp/C??_m?.patch')) + sorted(glob.glob('/tmp/R??_n?.patch')) + sorted(glob.glob('/tmp/S??_n?.patch')) + sorted(glob.glob('/tmp/T??_n?.patch'))
     for p in patches:
         name = os.path.basename(p)[:-6]
         pid = name[:3]
-        if pid[0] in 'RS':
+        if pid[0] in 'RST':
             # area-based round: the property is named in the json record
             try:
                 pid = json.load(open('/tmp/' + name + '.json'))['property'].strip()[:3]
